@@ -66,7 +66,7 @@ def run(ctx):
         # damage: single-bit flips from the CRC field on, truncations
         nbits = (len(data) - 17) * 8
         flips = range(nbits) if (len(data) <= 80 and not quick) or label.startswith("broker") and len(data) <= 90 else sorted(
-            {r.randrange(nbits) for _ in range(10 if quick else 200)})
+            {r.randrange(nbits) for _ in range((10 if len(data) < 1500 else 3) if quick else (200 if len(data) < 1500 else 12))})
         for i in flips:
             ba = bytearray(data); ba[17 + i // 8] ^= 1 << (i % 8)
             o = rc.impl_read(bytes(ba))
@@ -77,7 +77,7 @@ def run(ctx):
         o = rc.impl_read(bytes(ba)); rcases.append((bytes(ba), o)); meta.append((label, "magic"))
         if o[0] == "ok":
             prop_bad.append({"batch": label, "what": f"magic byte {ba[16]} accepted", "bytes": bytes(ba).hex()[:200]})
-        cuts = range(len(data)) if (len(data) <= 100 and (not quick or label.startswith('broker'))) else sorted({r.randrange(len(data)) for _ in range(12 if quick else 40)} | set(range(len(data) - 6, len(data))))
+        cuts = range(len(data)) if (len(data) <= 100 and (not quick or label.startswith('broker'))) else sorted({r.randrange(len(data)) for _ in range((12 if len(data) < 1500 else 4) if quick else (40 if len(data) < 1500 else 8))} | set(range(len(data) - 6, len(data))))
         for k in cuts:
             o = rc.impl_read(data[:k])
             rcases.append((data[:k], o)); meta.append((label, f"truncate@{k}"))
